@@ -1,6 +1,5 @@
 
-import Ecal.Lemmas.CascadeAux
-import Ecal.Lemmas.CascadeShared
+import Ecal.Lemmas.CascadeLive
 import Ecal.Gen.C02
 /-!
 # C02 — waiting on an event returns after its whole cascade, with exactly its errors
@@ -359,139 +358,8 @@ theorem no_leftover_panic {s : State} (h : Reachable s) : s.panicked = false :=
     steps are possible between two steps of action code: with terminating actions and weak
     fairness the cascade ends. -/
 theorem measure_decreases {s s' : State} {e : Event} (h : Reachable s) (he : e.internal = true)
-    (hs : step s e = some s') : workLeft s' < workLeft s := by
-  have hi := inv_reachable h
-  have hle := hi.post_le
-  cases e with
-  | register => simp [Event.internal] at he
-  | regHandler => simp [Event.internal] at he
-  | addEvent _ _ _ => simp [Event.internal] at he
-  | newChild _ => simp [Event.internal] at he
-  | waitReturns => simp [Event.internal] at he
-  | allErrors => simp [Event.internal] at he
-  | pop w i =>
-    simp only [step] at hs
-    split at hs
-    · split at hs
-      · rename_i m hm
-        split at hs
-        · rename_i hph
-          cases hs
-          exact workLeft_setMon hm (by simp [Mon.weight, hph])
-        · cases hs
-      · cases hs
-    · cases hs
-  | ruleReturns i ok =>
-    simp only [step] at hs
-    split at hs
-    · rename_i m hm
-      split at hs
-      · rename_i w r rest hph htodo
-        cases hs
-        apply workLeft_setMon hm
-        simp only [Mon.weight, hph, htodo]
-        split <;> simp
-      · cases hs
-    · cases hs
-  | taskDone i =>
-    simp only [step] at hs
-    split at hs
-    · rename_i m hm
-      split at hs
-      · rename_i w hph htodo
-        split at hs
-        · cases hs
-          rw [workLeft_finishOne]
-          exact workLeft_setMon hm (by simp [Mon.weight, hph])
-        · cases hs
-          exact workLeft_setMon hm (by simp [Mon.weight, hph])
-      · cases hs
-    · cases hs
-  | setErrors i =>
-    simp only [step] at hs
-    split at hs
-    · rename_i m hm
-      split at hs
-      · rename_i w hph
-        cases hs
-        exact workLeft_setMon hm (by simp [Mon.weight, hph])
-      all_goals cases hs
-    · cases hs
-  | errFinish i =>
-    simp only [step] at hs
-    split at hs
-    · rename_i m hm
-      split at hs
-      · rename_i w hph
-        cases hs
-        rw [workLeft_finishOne]
-        exact workLeft_setMon hm (by simp [Mon.weight, hph])
-      all_goals cases hs
-    · cases hs
-  | notified i =>
-    simp only [step] at hs
-    split at hs
-    · rename_i m hm
-      split at hs
-      · rename_i w hph
-        cases hs
-        exact workLeft_setMon hm (by simp [Mon.weight, hph])
-      all_goals cases hs
-    · cases hs
-  | dropQueue =>
-    simp only [step] at hs
-    split at hs
-    · rename_i hc
-      cases hs
-      simp [workLeft, hc.1]
-    · cases hs
-  | post =>
-    simp only [step] at hs
-    split at hs
-    · cases hs
-    · rename_i hpp
-      cases hs
-      have hp0 : s.posted = 0 := by omega
-      simp [workLeft, hp0]
-      omega
-  | observerRuns o =>
-    cases o with
-    | wait =>
-      simp only [step] at hs
-      split at hs
-      · cases hs
-      · rename_i hd
-        cases hs
-        have hp1 : s.posted = 1 := by
-          by_cases hp0 : s.posted = 0
-          · exact absurd (hi.pre hp0).1 hd
-          · omega
-        simp [workLeft, State.clearObs, hp1]
-        omega
-    | handler =>
-      simp only [step] at hs
-      split at hs
-      · cases hs
-      · rename_i hd
-        cases hs
-        have hp1 : s.posted = 1 := by
-          by_cases hp0 : s.posted = 0
-          · exact absurd (hi.pre hp0).2.1 hd
-          · omega
-        simp [workLeft, State.clearObs, hp1]
-        omega
-    | queue =>
-      simp only [step] at hs
-      split at hs
-      · cases hs
-      · rename_i hd
-        cases hs
-        have hp1 : s.posted = 1 := by
-          by_cases hp0 : s.posted = 0
-          · exact absurd (hi.pre hp0).2.2.1 hd
-          · omega
-        simp [workLeft, State.clearObs, hp1]
-        omega
+    (hs : step s e = some s') : workLeft s' < workLeft s :=
+  measure_decreases_lem h he hs
 
 /-! ### liveness, composed -/
 
@@ -609,18 +477,11 @@ theorem quiescent_complete {s : State} (h : Reachable s) (hw : 0 < s.workers)
   | true => right; rfl
   | false => left; simp [step, hr, hret]
 
-/- FULL STATEMENT (not proved as such): "a call of AddEventAndWait returns whenever the actions of
-   the cascade terminate and a worker is available" — a statement about every FAIR execution of the
-   Go program: each enabled engine step is eventually taken (Go scheduler, pool: C09), every action
-   performs finitely many NewChildMonitor/AddEvent calls and returns.
-   PROVED below (`wait_returns_partial`): once the actions' own code has handed over all its events
-   (no fresh monitor; the remaining action steps are `ruleReturns`, which are engine steps of the
-   model), EVERY maximal sequence of engine steps is finite — at most `workLeft s` steps — and ends
-   in a state where the waiter has been released and `waitReturns` is enabled, the finish handler
-   has run exactly once, every monitor is finished. Together with `progress` (a step is enabled
-   while a handed monitor is unfinished and a worker is free) this is the whole argument except the
-   fairness assumption itself, which is not expressible in the transition system. -/
-/-- see the comment above for the full statement and what is missing -/
+/- `wait_returns_partial` is the single-cascade, finite-run form; the full liveness statement — every
+   FAIR execution of the shared system in which the actions stop adding work reaches a state where
+   every waiter is released — is `wait_returns_fair` below (fairness is a hypothesis there, not proved). -/
+/-- every maximal run of engine steps from a state without fresh monitors is finite (≤ `workLeft`) and
+    ends complete; see `wait_returns_fair` for the statement over fair infinite executions -/
 theorem wait_returns_partial {s s' : State} (h : Reachable s) (hw : 0 < s.workers)
     (hnf : ∀ m ∈ s.mons, m.phase ≠ .fresh) (es : List Event)
     (hint : ∀ e ∈ es, e.internal = true) (hr : run s es = some s')
@@ -855,122 +716,15 @@ theorem src_post_filters_by_source : srcFact "postFiltersBySource" = some true :
     `Cascade.step`, and the view of every other root is unchanged. -/
 theorem conc_refines {C C' : Conc} {r : Nat} {e : Event} (hs : Conc.step C r e = some C') :
     ∃ v v', C.view r = some v ∧ step v e = some v' ∧ C'.view r = some v' ∧
-      ∀ r', r' ≠ r → C'.view r' = C.view r' := by
-  simp only [Conc.step] at hs
-  split at hs
-  · cases hs
-  · rename_i v hv
-    split at hs
-    · split at hs
-      · cases hs
-      · rename_i v' hstep
-        cases hs
-        have hv2 := hv
-        rw [view_eq] at hv2
-        obtain ⟨s0, hs0, hs0v⟩ := Option.map_eq_some_iff.mp hv2
-        have hr : r < C.roots.length := (List.getElem?_eq_some_iff.mp hs0).1
-        have hsf : v.sharedFields = counters C.table C.pending C.queues r := by
-          rw [← hs0v]; rfl
-        refine ⟨v, v', hv, hstep, ?_, ?_⟩
-        · rw [view_eq, shared_roots]
-          have hc := shared_counts_self { C with roots := C.roots.set r v'.local } r e v hsf
-          rw [hc, ← step_shared_fields hstep]
-          simp [List.getElem?_set_self hr, withCounters_local]
-        · intro r' hne
-          rw [view_eq, view_eq, shared_roots, shared_counts_other _ _ _ hne]
-          simp [List.getElem?_set_ne (Ne.symm hne)]
-    · cases hs
+      ∀ r', r' ≠ r → C'.view r' = C.view r' :=
+  conc_refines_lem hs
 
 /-- every root of a reachable shared system, read through `view`, is a reachable state of the
     single-cascade transition system — so every theorem of this file holds for each of several
     cascades in flight on one processor with its shared pump, queue and pool -/
 theorem conc_view_reachable {C : Conc} (h : C.Reachable) {r : Nat} {v : State} (hv : C.view r = some v) :
-    Reachable v := by
-  obtain ⟨w, ff, es, hr⟩ := h
-  let J (C : Conc) : Prop :=
-    (∀ r', C.roots.length ≤ r' → counters C.table C.pending C.queues r' = (0, 0, 0, false, 0, 0, 0)) ∧
-    (∀ r v, C.view r = some v → Reachable v)
-  suffices ∀ (es : List ConcEvent) (C0 : Conc), J C0 → Conc.run C0 es = some C → J C from
-    (this es _ ⟨by intro r' _; simp [Conc.init, counters, cnt], by intro r v hv; simp [Conc.init, Conc.view] at hv⟩ hr).2 r v hv
-  intro es
-  induction es with
-  | nil => intro C0 h0 hr; simp [Conc.run] at hr; exact hr ▸ h0
-  | cons e es ih =>
-    intro C0 h0 hr
-    simp only [Conc.run, List.foldlM_cons] at hr
-    cases hstep : Conc.stepE C0 e with
-    | none => simp [hstep] at hr
-    | some C1 =>
-      simp [hstep] at hr
-      refine ih C1 ?_ hr
-      cases e with
-      | newRoot =>
-        simp only [Conc.stepE] at hstep
-        cases hstep
-        constructor
-        · intro r' hr'
-          apply h0.1
-          simp at hr'
-          omega
-        · intro r v hv
-          rw [view_eq] at hv
-          obtain ⟨s0, hs0, hs0v⟩ := Option.map_eq_some_iff.mp hv
-          by_cases hlt : r < C0.roots.length
-          · have hs0' : C0.roots[r]? = some s0 := by
-              have : (C0.roots ++ [(Cascade.init C0.workers C0.failFirst).local])[r]? = some s0 := hs0
-              rwa [List.getElem?_append_left hlt] at this
-            exact h0.2 r v (by rw [view_eq, hs0']; exact congrArg some hs0v)
-          · have hlen := (List.getElem?_eq_some_iff.mp hs0).1
-            simp at hlen
-            have hreq : r = C0.roots.length := by omega
-            subst hreq
-            have : (C0.roots ++ [(Cascade.init C0.workers C0.failFirst).local])[C0.roots.length]? = some s0 := hs0
-            simp at this
-            have hz := h0.1 C0.roots.length (Nat.le_refl _)
-            have hz' : counters C0.table C0.pending C0.queues C0.roots.length = (0, 0, 0, false, 0, 0, 0) := hz
-            rw [← hs0v, ← this]
-            show Reachable (withCounters _ (counters C0.table C0.pending C0.queues C0.roots.length))
-            rw [hz']
-            exact ⟨C0.workers, C0.failFirst, [], rfl⟩
-      | «at» r e =>
-        simp only [Conc.stepE] at hstep
-        obtain ⟨v0, v1, hv0, hs01, hv1, hoth⟩ := conc_refines hstep
-        have hrlt : r < C0.roots.length := by
-          rw [view_eq] at hv0
-          obtain ⟨s0, hs0, _⟩ := Option.map_eq_some_iff.mp hv0
-          exact (List.getElem?_eq_some_iff.mp hs0).1
-        have hlen : C1.roots.length = C0.roots.length := by
-          simp only [Conc.step] at hstep
-          rw [hv0] at hstep
-          simp only at hstep
-          split at hstep
-          · rw [hs01] at hstep
-            cases hstep
-            rw [shared_roots]
-            simp
-          · cases hstep
-        constructor
-        · intro r' hr'
-          rw [hlen] at hr'
-          have hne : r' ≠ r := by omega
-          have := h0.1 r' hr'
-          simp only [Conc.step] at hstep
-          rw [hv0] at hstep
-          simp only at hstep
-          split at hstep
-          · rw [hs01] at hstep
-            cases hstep
-            rw [shared_counts_other _ _ _ hne]
-            exact this
-          · cases hstep
-        · intro r' v hv
-          by_cases hrr : r' = r
-          · subst hrr
-            rw [hv1] at hv
-            cases hv
-            exact reachable_step (h0.2 r' v0 hv0) hs01
-          · rw [hoth r' hrr] at hv
-            exact h0.2 r' v hv
+    Reachable v :=
+  conc_view_reachable_lem h hv
 
 /-- `errors_exact` + `wait_after_cascade` for a cascade running beside others on the shared pump:
     its report holds exactly its own failed (event, rule) entries — nothing of another cascade -/
@@ -1025,6 +779,93 @@ theorem conc_progress {C : Conc} {r i w : Nat} {v : State} {m : Mon} (hv : C.vie
 /-- a worker occupied in one cascade cannot take a task of another -/
 example : Conc.run (Conc.init 1 false) [.newRoot, .newRoot, .at 0 .regHandler, .at 0 (.addEvent 0 true [1]),
     .at 1 .regHandler, .at 1 (.addEvent 0 true [2]), .at 0 (.pop 0 0), .at 1 (.pop 0 0)] = none := by decide
+
+/-! ### liveness under fairness (`Exec`, `Exec.Fair`, `Exec.AddsStopAt` in `Model/CascadeShared.lean`) -/
+
+/-- **every fair run reaches quiescence**: in an execution of the shared system (any number of
+    cascades, any interleaving, disabled attempts stutter) that starts in a reachable state, is fair
+    (`Exec.Fair`: whenever an engine step is enabled an engine step is eventually taken — the
+    assumption about the Go scheduler and the pool) and in which the program stops adding work at
+    some tick `N` (`Exec.AddsStopAt`: the actions have made all their `NewChildMonitor`/`AddEvent`
+    calls), there is a tick `n ≥ N` at which no engine step of any cascade is enabled. -/
+theorem fair_run_reaches_quiescence (X : Exec) (hf : X.Fair) {N : Nat} (ha : X.AddsStopAt N) :
+    ∃ n, N ≤ n ∧ ¬ (X.C n).enabledInternal :=
+  fair_quiescence X hf ha
+
+/-- quiescence of the shared system is completion of every cascade whose monitors have all been
+    handed to `AddEvent` (pool with at least one worker): all its monitors finished, message posted,
+    a registered waiter released with `waitReturns` enabled (or already returned), a registered
+    finish handler run exactly once, its error report exact -/
+theorem conc_quiescent_complete {C : Conc} (h : C.Reachable) (hq : ¬ C.enabledInternal) {r : Nat} {v : State}
+    (hv : C.view r = some v) (hw : 0 < v.workers) (hnf : ∀ m ∈ v.mons, m.phase ≠ .fresh) :
+    (∀ m ∈ v.mons, m.phase.finished = true) ∧ v.posted = 1 ∧
+    (v.waiting = true → v.released = 1 ∧ ((step v .waitReturns).isSome = true ∨ v.waitReturned = true) ∧
+       allErrors v = expectedReport v) ∧
+    (v.handlerReg = true → v.handlerCalls = 1) := by
+  have hreach := conc_view_reachable h hv
+  obtain ⟨a, b, c, d⟩ := quiescent_complete hreach hw (conc_quiescent_view hq hv) hnf
+  refine ⟨a, b, ?_, d⟩
+  intro hwt
+  obtain ⟨c1, c2⟩ := c hwt
+  exact ⟨c1, c2, errors_exact hreach (by omega)⟩
+
+/-- **the wait returns** (the liveness clause of the property, under the stated assumptions): in a
+    fair execution in which the program stops adding work at tick `N`, and from then on every
+    created monitor has been handed to `AddEvent` and the pool has a worker, there is a tick at which
+    EVERY cascade is complete: every monitor finished, every registered waiter released (`wg.Wait`
+    can return) with an exact error report, every registered finish handler run exactly once.
+    ASSUMPTIONS, all explicit hypotheses: `Exec.Fair` (Go scheduler + pool liveness, C09),
+    `Exec.AddsStopAt` (terminating actions), all monitors handed over, ≥ 1 worker; the model is
+    sequentially consistent. A nested wait inside an action is an action that does not "stop adding"
+    until the nested cascade ends; with too few workers `Exec.Fair` cannot be met (deadlock). -/
+theorem wait_returns_fair (X : Exec) (hf : X.Fair) {N : Nat} (ha : X.AddsStopAt N)
+    (hh : ∀ n, N ≤ n → ∀ r v, (X.C n).view r = some v → 0 < v.workers ∧ ∀ m ∈ v.mons, m.phase ≠ .fresh) :
+    ∃ n, N ≤ n ∧ ∀ r v, (X.C n).view r = some v →
+      (∀ m ∈ v.mons, m.phase.finished = true) ∧ v.posted = 1 ∧
+      (v.waiting = true → v.released = 1 ∧ ((step v .waitReturns).isSome = true ∨ v.waitReturned = true) ∧
+         allErrors v = expectedReport v) ∧
+      (v.handlerReg = true → v.handlerCalls = 1) := by
+  obtain ⟨n, hn, hq⟩ := fair_run_reaches_quiescence X hf ha
+  refine ⟨n, hn, ?_⟩
+  intro r v hv
+  obtain ⟨hw, hnf⟩ := hh n hn r v hv
+  exact conc_quiescent_complete (exec_reachable X n) hq hv hw hnf
+
+/-- non-vacuity of `wait_returns_fair`: the hypotheses are jointly satisfiable with a cascade that
+    has run (a failing rule, a waiter): the execution that rests in the final state is fair -/
+example : ∃ (X : Exec) (N : Nat), X.Fair ∧ X.AddsStopAt N ∧
+    (∀ n, N ≤ n → ∀ r v, (X.C n).view r = some v → 0 < v.workers ∧ ∀ m ∈ v.mons, m.phase ≠ .fresh) ∧
+    ∃ v, (X.C 0).view 0 = some v ∧ v.waiting = true ∧ v.mons.length = 1 := by
+  let CEnd : Conc := { workers := 1, failFirst := false, roots := [sEnd.local] }
+  have hreach : CEnd.Reachable := ⟨1, false, [.newRoot, .at 0 .register, .at 0 .regHandler, .at 0 (.addEvent 0 true [7]),
+    .at 0 (.pop 0 0), .at 0 (.ruleReturns 0 false), .at 0 (.taskDone 0), .at 0 (.setErrors 0), .at 0 (.errFinish 0),
+    .at 0 (.notified 0), .at 0 .dropQueue, .at 0 .post, .at 0 (.observerRuns .wait), .at 0 (.observerRuns .handler),
+    .at 0 (.observerRuns .queue)], rfl⟩
+  have hview : CEnd.view 0 = some sEnd := rfl
+  have hq : ¬ CEnd.enabledInternal := by
+    rintro ⟨r, e, he, hs⟩
+    cases r with
+    | zero =>
+      simp only [Conc.step, hview] at hs
+      split at hs
+      · rw [sEnd_quiescent e he] at hs; cases hs
+      · cases hs
+    | succ r => simp [Conc.step, Conc.view, CEnd] at hs
+  refine ⟨{ C := fun _ => CEnd, ev := fun _ => none, start := hreach, next := fun _ => rfl }, 0, ?_, ?_, ?_, ?_⟩
+  · intro n hen; exact absurd hen hq
+  · intro n _ e he; cases he
+  · intro n _ r v hv
+    cases r with
+    | zero =>
+      have : v = sEnd := by
+        have hv' : CEnd.view 0 = some v := hv
+        rw [hview] at hv'; cases hv'; rfl
+      subst this
+      exact ⟨by decide, by decide⟩
+    | succ r =>
+      have hv' : CEnd.view (r + 1) = some v := hv
+      simp [Conc.view, CEnd] at hv'
+  · exact ⟨sEnd, hview, rfl, rfl⟩
 
 /-- negative witness: a `PostEvent` that does not filter its snapshot by the posting source (not the
     code, cf. `src_post_filters_by_source`) hands the waiter of ANOTHER, unfinished cascade its
